@@ -47,6 +47,13 @@ func c01Oracle(c *catchInst, ds string, ops []catchOp, step int, o J, failures *
 	act := o["active"].([]int)
 	f := c.freshWith(act)
 	fo := f.obs()
+	if !catchSameObs(c.allAttrs(), f.allAttrs()) {
+		*failures++
+		if *failures <= 5 {
+			emit(J{"kind": "oracle", "what": "hidden per-unit attributes differ from those of a fresh instance with the same active set (later valuations will depend on the history)",
+				"dataset": ds, "ops": ops[:step+1], "reached_attrs": c.allAttrs(), "fresh_attrs": f.allAttrs()})
+		}
+	}
 	if !catchSameObs(o, fo) {
 		*failures++
 		if *failures <= 5 {
